@@ -1,10 +1,11 @@
 ---- MODULE USyncFlag ----
 \* Implementation-shaped model of utils.BroadcastFlag / utils.Flag (utils/broadcastflag.go): a heap of
 \* atomic booleans and of channels (closed or not), the broadcaster's current flag/signal and its mutex,
-\* every Flag's private copies of the two pointers; one action per statement that touches shared memory.
+\* every Flag's private copies of the two pointers; one action per step that other goroutines can observe
+\* (statements whose effect is visible under the mutex only are merged with the unlock).
 \* NN notifier processes call NotifyAndReset, NO owner processes each use their own Flag (Refresh, IsSet,
 \* a non-blocking receive from Signal()).  Call and return events feed the linearizability monitor USyncLin
-\* over the sequential specification FlagStep (F1 F2 F3): TLC checks for every interleaving that every
+\* over the sequential specification FlagStep (F1..F4): TLC checks for every interleaving that every
 \* observed result is explained by some linearization, and that nothing can get stuck.
 \*
 \* Variant "real" is the code; "noreset" leaves out the reset in NotifyAndReset, "nolock" lets Refresh copy
@@ -59,18 +60,22 @@ NSet(p) == /\ pc[p] = "n_set" /\ cells' = [cells EXCEPT ![bfF] = TRUE] /\ Go(p, 
 NClose(p) == /\ pc[p] = "n_close" /\ chans' = [chans EXCEPT ![bfS] = TRUE]
              /\ Go(p, IF Variant = "noreset" THEN "n_unlock" ELSE "n_newf")
              /\ UNCHANGED <<left, cells, bfF, bfS, mu, ownF, ownS, val, L>>
-\* bf.flag = abool.New()
-NNewF(p) == /\ pc[p] = "n_newf" /\ cells' = Append(cells, FALSE) /\ bfF' = Len(cells) + 1 /\ Go(p, "n_news")
-            /\ UNCHANGED <<left, chans, bfS, mu, ownF, ownS, val, L>>
-\* bf.signal = make(chan struct{})
-NNewS(p) == /\ pc[p] = "n_news" /\ chans' = Append(chans, FALSE) /\ bfS' = Len(chans) + 1 /\ Go(p, "n_unlock")
-            /\ UNCHANGED <<left, cells, bfF, mu, ownF, ownS, val, L>>
+\* bf.flag = abool.New() ; bf.signal = make(chan struct{}) ; unlock -- what is written here is read under the mutex only
+NReset(p) == /\ pc[p] = "n_newf"
+             /\ cells' = Append(cells, FALSE) /\ bfF' = Len(cells) + 1
+             /\ chans' = Append(chans, FALSE) /\ bfS' = Len(chans) + 1
+             /\ mu' = 0 /\ Go(p, "retn")
+             /\ UNCHANGED <<left, ownF, ownS, val, L>>
 
-\* f.flag = f.broadcaster.flag ; f.signal = f.broadcaster.signal
+\* f.flag = f.broadcaster.flag ; f.signal = f.broadcaster.signal ; unlock
+RCopy(p) == /\ pc[p] = "r_copy"
+            /\ ownF' = [ownF EXCEPT ![p] = bfF] /\ ownS' = [ownS EXCEPT ![p] = bfS]
+            /\ mu' = 0 /\ Go(p, "retn")
+            /\ UNCHANGED <<left, cells, chans, bfF, bfS, val, L>>
+\* variant "nolock": the two copies without the mutex
 RCopyF(p) == /\ pc[p] = "r_cf" /\ ownF' = [ownF EXCEPT ![p] = bfF] /\ Go(p, "r_cs")
              /\ UNCHANGED <<left, cells, chans, bfF, bfS, mu, ownS, val, L>>
-RCopyS(p) == /\ pc[p] = "r_cs" /\ ownS' = [ownS EXCEPT ![p] = bfS]
-             /\ Go(p, IF Variant = "nolock" THEN "retn" ELSE "r_unlock")
+RCopyS(p) == /\ pc[p] = "r_cs" /\ ownS' = [ownS EXCEPT ![p] = bfS] /\ Go(p, "retn")
              /\ UNCHANGED <<left, cells, chans, bfF, bfS, mu, ownF, val, L>>
 
 \* f.flag.IsSet() ; select { case <-f.Signal(): ... default: }
@@ -89,8 +94,8 @@ Terminated == /\ \A p \in P : pc[p] = "idle" /\ left[p] = 0
               /\ UNCHANGED vars
 
 Step(p) == \/ CallN(p) \/ CallO(p)
-           \/ Lock(p, "n_lock", "n_set") \/ NSet(p) \/ NClose(p) \/ NNewF(p) \/ NNewS(p) \/ Unlock(p, "n_unlock", "retn")
-           \/ Lock(p, "r_lock", "r_cf") \/ RCopyF(p) \/ RCopyS(p) \/ Unlock(p, "r_unlock", "retn")
+           \/ Lock(p, "n_lock", "n_set") \/ NSet(p) \/ NClose(p) \/ NReset(p) \/ Unlock(p, "n_unlock", "retn")
+           \/ Lock(p, "r_lock", "r_copy") \/ RCopy(p) \/ RCopyF(p) \/ RCopyS(p)
            \/ IRead(p) \/ PRead(p) \/ Ret(p)
 
 Next == (\E p \in P : Step(p)) \/ Terminated
